@@ -23,6 +23,24 @@ func wrapReuseError(msg string) error {
 	return fmt.Errorf("%s: %s", reuseErrorState, msg)
 }
 
+// preferFresh breaks the tie of a simultaneous open. It is consulted when the re-check under
+// the write lock finds a connection that was cached while this negotiation was in flight.
+// If that connection and the fresh one were dialed by different peers, each peer would
+// otherwise keep whichever it happened to store first and close the other one, so the two
+// peers could end up closing the connection the other side kept. Instead both peers keep the
+// connection dialed by the peer with the lower address: the rule only uses information both
+// sides agree on, so they always pick the same connection.
+func (t *QUIC) preferFresh(cache, fresh *nodeConnection) bool {
+	if cache.direction == fresh.direction {
+		// both were dialed by the same side: keep the one that is already cached
+		return false
+	}
+	weAreLower := t.Endpoint.GetAddress() < fresh.peer.GetAddress()
+	// fresh is outgoing  => dialed by us   => it wins iff we have the lower address
+	// fresh is incoming  => dialed by peer => it wins iff the peer has the lower address
+	return (fresh.direction == directionOutgoing) == weAreLower
+}
+
 func (t *QUIC) reuseConnection(_ context.Context, q *quic.Conn, s *quic.Stream, dir direction) (*nodeConnection, bool, error) {
 	negotiation := &protocol.Connection{
 		Identity: t.Endpoint,
@@ -176,6 +194,12 @@ func (t *QUIC) reuseConnection(_ context.Context, q *quic.Conn, s *quic.Stream, 
 					// need to check again because we released the lock
 					cache, cached = t.cachedConnections.Load(qKey)
 					if cached {
+						if t.preferFresh(cache, fresh) {
+							// simultaneous open: the fresh connection is the one both peers keep
+							t.cachedConnections.Store(qKey, fresh)
+							cache.quic.CloseWithError(508, wrapReuseError("superseded by the connection both peers keep").Error())
+							return fresh, false, nil
+						}
 						// other:    new incoming
 						//    us: cached
 						fresh.quic.CloseWithError(508, wrapReuseError("previously cached connection was reused").Error())
@@ -204,6 +228,12 @@ func (t *QUIC) reuseConnection(_ context.Context, q *quic.Conn, s *quic.Stream, 
 					// need to check again because we released the lock
 					cache, cached = t.cachedConnections.Load(qKey)
 					if cached {
+						if t.preferFresh(cache, fresh) {
+							// simultaneous open: the fresh connection is the one both peers keep
+							t.cachedConnections.Store(qKey, fresh)
+							cache.quic.CloseWithError(508, wrapReuseError("superseded by the connection both peers keep").Error())
+							return fresh, false, nil
+						}
 						// other:    new outgoing
 						//    us: cached
 						fresh.quic.CloseWithError(508, wrapReuseError("previously cached connection was reused").Error())
